@@ -49,7 +49,7 @@ static void args_of(unsigned long id, uintptr_t a[3])
 	}
 }
 /* the message id a line carries, if the line is exactly what that message's format and arguments print (-2 otherwise) */
-static long parse(const char *s)
+static long parse(const char *s, int dumpline)
 {
 	static char want[1400];
 	unsigned long id;
@@ -67,7 +67,7 @@ static long parse(const char *s)
 	args_of(id, a);
 	snprintf(want, sizeof(want), fmts[id % NFMT], a[0], a[1], a[2]);
 	size_t n = strlen(want), m = strlen(s);
-	if (m == n - 1 && want[n - 1] == '\n') n--;          /* a dump line is handed over without its newline */
+	if (dumpline && m == n - 1 && want[n - 1] == '\n') n--;          /* a dump line is handed over without its newline */
 	if (m != n || memcmp(s, want, n) != 0) return -2;
 	return (long)id;
 }
@@ -108,8 +108,33 @@ static void do_burst(unsigned long n)
 static void do_read(int k)
 {
 	char *s = mlog_get_line(k);
-	printf("{\"e\":\"Read\",\"k\":%d,\"r\":[%ld]}\n", k, parse(s));
+	printf("{\"e\":\"Read\",\"k\":%d,\"r\":[%ld]}\n", k, parse(s, 0));
 	free(s);
+}
+/* the shape of an ordinary caller: the same line asked for several times in ONE function, with the log changing in between
+ * (nothing here goes through a function pointer or a helper of its own: what the header says about the functions is all the
+ * compiler knows) */
+static void do_shape(void)
+{
+	mlog_clear(); printf("{\"e\":\"Clear\"}\n");
+	do_log(0);
+	char *a = mlog_get_line(0);
+	printf("{\"e\":\"Read\",\"k\":0,\"r\":[%ld]}\n", parse(a, 0));
+	for (int i = 0; i < 256; i++) do_log(0);
+	char *b = mlog_get_line(0);
+	printf("{\"e\":\"Read\",\"k\":0,\"r\":[%ld]}\n", parse(b, 0));
+	do_log(1);
+	char *c = mlog_get_line(255);
+	printf("{\"e\":\"Read\",\"k\":255,\"r\":[%ld]}\n", parse(c, 0));
+	do_log(0);
+	char *d = mlog_get_line(255);
+	printf("{\"e\":\"Read\",\"k\":255,\"r\":[%ld]}\n", parse(d, 0));
+	mlog_clear(); printf("{\"e\":\"Clear\"}\n");
+	char *e = mlog_get_line(0);
+	printf("{\"e\":\"Read\",\"k\":0,\"r\":[%ld]}\n", parse(e, 0));
+	int distinct = a != b && c != d && (!e || (e != a && e != b));       /* every call hands over a string of its own */
+	printf("{\"e\":\"Own\",\"ok\":%d}\n", distinct);
+	free(a); if (b != a) free(b); free(c); if (d != c) free(d); if (e != a && e != b) free(e);
 }
 static void do_readall(void) { for (int k = -2; k <= 257; k++) do_read(k); }
 static void do_readsome(void) { static const int ks[] = { -1, 0, 1, 2, 127, 128, 254, 255, 256 }; for (unsigned i = 0; i < 9; i++) do_read(ks[i]); }
@@ -131,7 +156,7 @@ static void do_dump(void)
 		char *nl = memchr(p, '\n', buf + len - p);
 		if (nl) *nl = 0;
 		/* a line that is not newline-terminated, or that contains a NUL byte, is not a line of the log */
-		printf("%s%ld", first ? "" : ",", (nl && strlen(p) == (size_t)(nl - p)) ? parse(p) : -2L);
+		printf("%s%ld", first ? "" : ",", (nl && strlen(p) == (size_t)(nl - p)) ? parse(p, 1) : -2L);
 		first = 0;
 		if (!nl) break;
 		p = nl + 1;
@@ -196,6 +221,7 @@ int main(void)
 				if (i % 50 == 0 || i % 256 == 255) do_dump();
 			}
 		}
+		else if (drv_is(&c, "Shape")) do_shape();
 		else if (drv_is(&c, "NestedNice")) {
 			for (int pre = 250; pre <= 258; pre++) {
 				do_clear();
